@@ -20,17 +20,20 @@ from ..ctx import HarnessError, Result, Viol
 
 LEVEL = "exploration"
 WORKERS = {"quick": 8, "thorough": 16}
-BUDGET_S = {"quick": 50, "thorough": 700}
+BUDGET_S = {"quick": 40, "thorough": 700}
 RULE = (
     "Hypothesis draws a base index as a nested tree (files with meta in {None, Meta(), size, isexec, "
     "etag, ...} and hash in {None, falsy HashInfo, md5/sha256 value from a 6-value pool}; directories "
     "implicit or explicit, explicit ones optionally carrying a .dir hash derived from their descendant "
     "files; optional explicit root entry) and derives the other side by 0-6 drawn mutations (re-hash, "
-    "re-meta, drop, add, move = rename, file->directory, directory->file, toggle explicit / hashed "
-    "directory entry); either side may be None or empty; options with_unchanged, mode in "
+    "re-meta, drop, add, move / copy a file, move a whole directory, file->directory, directory->file, "
+    "toggle explicit / hashed directory entry; a rename arm draws hashes from three values so several "
+    "deleted and added keys share a hash); either side may be None or empty; options with_unchanged, mode in "
     "{full, hash_only, meta_only}, meta_cmp_key in {None, (isdir, isexec)}, shallow, with_renames "
     "(never with meta_only: asserted by the code), with_unknown. Oracle: flat key-by-key reference "
-    "diff over the two key->entry dictionaries (shallow = keys below a hashed entry pruned per side): "
+    "diff over the two key->entry dictionaries (under shallow, keys outside hashed sub-trees stay exact; "
+    "a key strictly below a hashed entry may be seen or not seen on that side - any of those outcomes "
+    "is accepted, nothing else): "
     "(a) every key with an entry is reported exactly once under with_unchanged, (b,f) classification "
     "equals the reference table in all three modes, (c) diff(x, x) has no change, (d) diff(b, a) is "
     "diff(a, b) with add/delete and old/new swapped, (e) renames pair one deleted and one added key "
@@ -45,6 +48,9 @@ ASSUMPTIONS = [
     "directory entry's .dir hash is a function of its descendant file keys and hashes",
     "no storage is attached (nothing is lazily loaded; with_unknown can never fire)",
     "an entry with a hash and no meta is read as Meta() (what info()/ls() hand to the diff)",
+    "shallow: the diff does not list below an entry that carries a hash; what happens to keys inside such "
+    "a sub-tree when the other side leads the descent there is unspecified, so only consistency with some "
+    "seen/not-seen combination is required for them",
     "hash_only and meta_only are not combined; with_renames is not combined with meta_only (assert in diff())",
 ]
 
@@ -772,7 +778,7 @@ ARMS = [
 
 
 def run(ctx):
-    total = ctx.n(quick=2600, thorough=80000)
+    total = ctx.n(quick=2000, thorough=70000)
     per = max(1, total // len(ARMS))
     for mode, renames in ARMS:
         if not ctx.run_given(cases(mode=mode, renames=renames), run_case, per):
